@@ -205,6 +205,21 @@ PROPS = {
                         "direction reproduces (u, v): concrete replays only (atan2 identities)"],
         "technique": "exhaustive enumeration of a finite dispatch domain on the real function + run-time contracts with independent oracles (bounded) + z3 for scalar kernels",
     },
+    "C14": {
+        "level": "other",
+        "engines": [{"kind": "pyse"}],
+        "explanation": "PROVED for any number of stations (symbolic extent, z3): Coordinates.distance equals sqrt(dlon^2 + dlat^2) with the "
+        "longitude difference taken the short way round (min(|d| mod 360, 360 - ...)) at every station; Coordinates.nearest returns an index in "
+        "range together with that station's distance. BOUNDED (run-time contracts with a brute-force oracle on seeded layouts around the 0 and "
+        "180 meridians, both conventions for dataset and query, lists and arrays, every run): nearest returns a station at minimum distance or "
+        "fails beyond the tolerance; idw returns the 1/d weighted mean of up to max_sites stations in range (the station itself at zero distance, "
+        "missing with fewer than two); bbox returns exactly the stations inside [min-tol, max+tol] in the query's convention; longitudes are "
+        "reported in the query's convention; dataset and query arrays are left untouched.",
+        "trusted_base": ["independent oracle in contracts/selection.py"],
+        "assumptions": ["'no station is closer' for nearest is checked on concrete replays only (argmin over sqrt terms not discharged)",
+                        "the per-query loops of sel_* are not brought under invariants: bounded replays only"],
+        "technique": "contract-based deductive verification of the distance kernel (symbolic number of stations) + run-time contracts with a brute-force oracle (bounded)",
+    },
 }
 
 _PENDING = "not yet brought under contract in the current build round (see DESIGN.md section 8 for the order of work)"
